@@ -3,6 +3,9 @@
 // Contracts for the deductive verifier in /verif (govc); comments only.
 package csrand
 
+// Reader is crypto/rand.Reader, assigned once by the package initialiser
+//@ globalinv readerOK := Reader != nil && typeis(Reader, "*rand.reader") && payload(Reader) != nil
+
 //@ func IntRange(min, max) (ret)
 //@   serves C12 C10
 //@   opt wrapping_conversions
